@@ -47,8 +47,12 @@ def interpose(coro: Coroutine[Any, Any, Any], on_yield: Callable[[int, Any], Non
 class Injector:
     """Cancel the victim at suspension point `target` (None = only count)."""
 
-    def __init__(self, target: int | None) -> None:
+    def __init__(self, target: int | None, after_idles: int = 0) -> None:
         self.target = target
+        self.after_idles = after_idles  # 0: cancel the moment the victim suspends at `target`; j>0: at the j-th loop idle while it is still suspended there
+        self.at_point: int | None = None
+        self.armed = False
+        self.idles_left = 0
         self.points = 0
         self.task: asyncio.Task[Any] | None = None
         self.fired = False
@@ -58,14 +62,36 @@ class Injector:
 
     def on_yield(self, k: int, yielded: Any) -> None:
         self.points = k + 1
+        self.at_point = k
         if self.target is not None and k == self.target and not self.fired:
-            self.fired = True
-            if self.phase is not None:
-                self.where = self.phase()
-            assert self.task is not None
-            self.task.cancel()
+            if self.after_idles > 0:
+                self.armed, self.idles_left = True, self.after_idles
+                return
+            self._fire()
+
+    def _fire(self) -> None:
+        self.fired = True
+        self.armed = False
+        if self.phase is not None:
+            self.where = self.phase()
+        assert self.task is not None
+        self.task.cancel()
+
+    def on_idle(self) -> bool:
+        """called by the harness' idle hook before it releases anything; True if the cancellation was requested now"""
+        if not self.armed:
+            return False
+        if self.at_point != self.target or (self.task is not None and self.task.done()):
+            self.armed = False  # the victim moved on before the delayed injection was due
+            return False
+        self.idles_left -= 1
+        if self.idles_left > 0:
+            return False
+        self._fire()
+        return True
 
     def on_resume(self, k: int, exc: BaseException | None) -> None:
+        self.at_point = None
         if self.fired and k == self.target and isinstance(exc, asyncio.CancelledError):
             self.delivered = True
 
